@@ -33,12 +33,14 @@ C04_OPS = ["load_aligned", "load_unaligned", "store_aligned", "store_unaligned",
 C06_OPS = [o for o in entries.OPS if o.startswith("batch_cast_to_") or o.startswith("bitwise_cast_to_")] + ["to_int", "to_float"]
 
 C05_OPS = [o for o in entries.OPS if o.split("_")[0] in ("zip", "swizzle", "compress", "expand", "extract", "insert", "slide", "rotate")]
+C05_QUICK = ["zip_lo", "zip_hi", "swizzle_dyn", "compress", "expand", "extract_pair", "insert_0", "insert_3", "slide_left_1", "slide_left_4", "slide_right_1",
+             "slide_right_8", "rotate_left_1", "rotate_left_3", "rotate_right_1"]
 
 C09_OPS = ["reduce_add", "reduce_max", "reduce_min"]
 
 PROPS = {
     "C09": dict(ops=C09_OPS, types=ALL_TYPES, design="5.10"),
-    "C05": dict(ops=C05_OPS, types=ALL_TYPES, design="5.6", optional=True),
+    "C05": dict(ops=C05_OPS, quick_ops=C05_QUICK, types=ALL_TYPES, design="5.6", optional=True),
     "C06": dict(ops=C06_OPS, types=ALL_TYPES, design="5.7"),
     "C04": dict(ops=C04_OPS, types=ALL_TYPES, design="5.5"),
     "C02": dict(ops=C02_OPS, types=FLOAT_TYPES, design="5.3"),
@@ -211,7 +213,7 @@ def run_value_property(pid, tier, seed, only_archs=None, only_ops=None, only_typ
     archs = list(DEFINING_ARCHS) if tier == "quick" else list(X86_ARCHS)
     if only_archs:
         archs = only_archs
-    ops = only_ops or cfg["ops"]
+    ops = only_ops or (cfg.get("quick_ops") if tier == "quick" and cfg.get("quick_ops") else cfg["ops"])
     types = only_types or cfg["types"]
     cases = [(o, t, a) for o in ops for t in types if t in entries.OPS[o][2] for a in archs]
     flt = quick_pre_filter(pid) if tier == "quick" else thorough_filter(pid)
